@@ -173,6 +173,7 @@ static void exec_op(char *line) {
       if (c) { g->cpuset = c; }
       if (n) { g->nodeset = n; }
       g->attr->group.dont_merge = (unsigned char) atoi(tok[4]);
+      if (nt >= 8) { g->attr->group.kind = (unsigned) atoi(tok[6]); g->attr->group.subkind = (unsigned) atoi(tok[7]); }   /* optional <kind> <subkind> */
       hwloc_obj_t r = hwloc_topology_insert_group_object(topo, g); err = errno;
       ret = r ? (r == g ? 0 : 1) : -1;   /* 0 inserted, 1 merged into an existing object, -1 refused */
     }
@@ -302,9 +303,13 @@ static void gen_op(char *line, size_t cap) {
       else if (k == 3) { int fb = hwloc_bitmap_first(c); if (fb >= 0) hwloc_bitmap_clr(c, fb); }                   /* cuts a child */
       else if (k == 4) { n = hwloc_bitmap_alloc(); hwloc_bitmap_copy(n, p->nodeset); hwloc_bitmap_zero(c); }       /* nodeset-only group */
     }
+    { /* 15 %: same cpuset as an existing Group (equal Groups: merge / replace / refuse-to-merge paths) */
+      if (!n && rng_chance(15)) for (unsigned k2 = 0; k2 < nobjs; k2++) { hwloc_obj_t g = objs[(k2 + id) % nobjs]; if (g->type == HWLOC_OBJ_GROUP && g->cpuset) { hwloc_bitmap_copy(c, g->cpuset); break; } } }
     hex_of_set(a, sizeof a, hwloc_bitmap_iszero(c) && n ? NULL : c);
     hex_of_set(b, sizeof b, n);
-    snprintf(line, cap, "OP group %s %s %d -", a, b, force_focus ? 0 : rng_chance(25));
+    static const int kinds[] = {0, 34, 784, 1001};
+    if (rng_chance(30)) snprintf(line, cap, "OP group %s %s %d - %d %u", a, b, force_focus ? 0 : rng_chance(40), kinds[rng_below(4)], rng_below(3));
+    else snprintf(line, cap, "OP group %s %s %d -", a, b, force_focus ? 0 : rng_chance(25));
     hwloc_bitmap_free(c); hwloc_bitmap_free(n);
   } else if (r < 89) {
     snprintf(line, cap, "OP groupfree");
